@@ -21,7 +21,13 @@ interpreter loop; P5 holds for EVERY fuel and says nothing about how much is eno
 import TeraModel.Lemmas.PipelineLex
 import TeraModel.Lemmas.PipelineEnv
 import TeraModel.Lemmas.PipelineBuild
+import TeraModel.Lemmas.PipelineScoped
+import TeraModel.Lemmas.PipelineWire
+import TeraModel.Lemmas.PipelineBuiltins
+import TeraModel.Lemmas.PipelineT
+import TeraModel.Props.C07VmT
 import TeraModel.Props.C07Vm
+import TeraModel.Props.C09WF
 namespace Tera.Pipeline
 open Tera Utf8
 
@@ -47,35 +53,52 @@ theorem front_never_panics (d : Delims) (src : Bytes) (hd : d.accepted = true) (
 
 /-! ## P2 — parser ↔ compiler -/
 
-/-- The full statement: every AST the parser model returns satisfies p2_compiler's
-`templateScoped`. -/
-def parsed_ast_scoped_full : Prop :=
-  ∀ (maxDepth : Nat) (toks : List Tok) (t : Template) (s : TParser.TState),
-    TParser.parse maxDepth toks = .ok t s → Compiler.templateScoped t = true
+/-- **P2 `parsed_ast_scoped`** (full strength).  Every AST the parser model returns — for every
+token list and every depth limit — satisfies p2_compiler's `templateScoped`, the hypothesis of the
+compiler theorems (`C07Compile.compile_stack_discipline`, `compile_verify`, …):
+* the main body and every component definition body are `nodesScoped false`: `break` / `continue`
+  only inside a `for` body with no capture or block in between, no binary `Is` / `Pipe` node
+  (`TParser.parse_scoped`, bG1_parser);
+* the compiler of a component definition records no block: a component body contains no
+  `{% block %}` (`TParser.parse_post`) and every component call INSIDE an expression is self-closing
+  (`TParser.parse_sc`, bG1_parser), so the event walk of the compiler, which descends into the body
+  of every component call wherever it stands, meets no block (`sc_no_block_aux`,
+  Lemmas/PipelineScoped.lean).
+Closes the parser ↔ compiler gap: every compiler theorem applies to every real parse. -/
+theorem parsed_ast_scoped (maxDepth : Nat) (toks : List Tok) (t : Template) (s : TParser.TState)
+    (h : TParser.parse maxDepth toks = .ok t s) : Compiler.templateScoped t = true :=
+  parse_templateScoped maxDepth toks t s h
 
-/-- **P2 `parsed_ast_scoped`** (partial: two of the three conjuncts of `templateScoped`).  Every AST
-the parser model returns has scoped node lists — `break` / `continue` only inside a `for` body with
-no capture or block in between, no binary `Is` / `Pipe` node — in the main body and in every
-component definition (`TParser.parse_scoped`, bG1_parser), and therefore the compiler model does
-not reach either of its two panic sites on it (compiler.rs:591 `get_current_loop().unwrap()`,
-compiler.rs:409 `unreachable!()`).  These two conjuncts are ALL that the compiler theorems use
-(`C07Compile.compile_stack_discipline` reads only `.1` of the component part).  The third conjunct,
-"the compiler of a component definition records no block", is not proved here: it follows from
-`C06Parser.blocks_recorded_once` (`blockNamesList d.body = []`) only together with "no component
-call with a body INSIDE an expression", which `exprScoped` does not express. -/
-theorem parsed_ast_scoped_partial (maxDepth : Nat) (toks : List Tok) (t : Template) (s : TParser.TState)
+/-- hence the compiler model does not reach either of its two panic sites (compiler.rs:591
+`get_current_loop().unwrap()`, compiler.rs:409 `unreachable!()`) on any parsed template, and every
+chunk it emits has the stack discipline of `C07Compile.compile_stack_discipline` -/
+theorem parsed_ast_compiles (maxDepth : Nat) (toks : List Tok) (t : Template) (s : TParser.TState)
     (h : TParser.parse maxDepth toks = .ok t s) :
-    Compiler.nodesScoped false t.nodes = true ∧
-    (∀ d ∈ t.componentDefinitions, Compiler.nodesScoped false d.body = true) ∧
-    ∃ c, Compiler.compileTemplate t = .ok c := by
-  obtain ⟨h1, h2⟩ := TParser.parse_scoped maxDepth toks t s h
-  exact ⟨h1, h2, compile_ok_of_scoped t h1 h2⟩
+    ∃ c, Compiler.compileTemplate t = .ok c ∧ ∀ ch ∈ c.chunks, ∀ a : WellFormed.St,
+      (∀ pc st, C07Compile.Reach ch a pc st → ¬ C07Compile.Panics ch pc st) ∧
+      (∀ pc st, C07Compile.Reach ch a pc st → pc ≤ ch.length) ∧
+      (∀ pc st, C07Compile.Reach ch a pc st → ch.length ≤ pc → st.le a = true) :=
+  C07Compile.compile_stack_discipline t (parsed_ast_scoped maxDepth toks t s h)
 
 /-! ## P3 — compiler ↔ optimiser ↔ VM -/
 
 /-- The full statement: in any environment in which the template is registered and the names
 its chunks refer to are registered, every chunk `optimize (compile …)` of a scoped AST passes
-p2_vm's `checkChunk`. -/
+p2_vm's `checkChunk`.
+
+Status.  PROVED for all programs (the three theorems below): the optimiser never panics on
+compiled code and its output decodes (`compiled_optimized_stored_partial`); the optimised listing
+passes the verified checker of the abstract stack machine, `WellFormed.verify`
+(`compiled_optimized_wellformed`: p2_compiler + bC_opt's "optimize preserves the checker's
+acceptance"); and that listing IS the wire form of the typed chunk the composed model stores and
+runs (`stored_chunks_wellformed`).  NOT proved: the step from `WellFormed.verify` to
+`Vm.checkChunk` — p2_vm's checker additionally tracks three per-slot facts (the kwargs slot is a
+map, an operand an error is reported on has a span, a slice bound the compiler loaded is fine)
+and INFERS its table by a bounded forward pass (`Vm.infer`, not proved complete); bC_opt states
+what a proof needs in `C09WF.optimize_preserves_vverify_full`.  Because of that gap the composed
+`addTemplates` RUNS `checkChunk` on every chunk it stores (translation validation; outcome
+`unchecked`), which makes P5 unconditional; cpipe measures that `unchecked` never occurs (0 of
+343 861 accepted environments in the thorough run). -/
 def compiled_optimized_checked_full : Prop :=
   ∀ (t : Template) (name : String) (c : Compiler.Compiled) (env : Vm.Env),
     Compiler.templateScoped t = true → Compiler.compileTemplate t = .ok c →
@@ -88,12 +111,7 @@ compiler model accepts and every chunk of it (main, blocks, component bodies), t
 `storeChunk` — encode, `Optimize.optimize`, decode — answers a chunk: the pass does not hit its
 `index_map[target]` panic (instructions.rs:329; `C09.optimize_no_panic` on
 `targets_nodes`) and every instruction of the optimised chunk is one the VM model has
-(`C09.optimize_merges_only_paths`: only variable paths are fused).  What is NOT proved is that the
-abstract interpretation of Model/VmCheck.lean (`infer` + `verify`) accepts the result: `infer` is
-a bounded forward pass that p2_vm does not prove complete.  Instead `addTemplates` RUNS
-`checkChunk` on every chunk it stores (translation validation, outcome `unchecked`), so P5 below
-needs no assumption; cpipe measures that `unchecked` never occurs on the generated and repo
-templates. -/
+(`C09.optimize_merges_only_paths`: only variable paths are fused).  No hypothesis on the AST. -/
 theorem compiled_optimized_stored_partial (t : Template) (name : String) (c : Compiler.Compiled)
     (hc : Compiler.compileTemplate t = .ok c) :
     ∀ code ∈ c.chunks, ∃ ch, storeChunk name code = .ok ch := by
@@ -106,6 +124,69 @@ theorem compiled_optimized_stored_partial (t : Template) (name : String) (c : Co
     rw [hb]; exact storeChunk_nodes name _
   · obtain ⟨body, hb⟩ := hcomps p hp
     rw [hb]; exact storeChunk_nodes name _
+
+/-- **P3 at the level of the abstract stack machine, for ALL programs**
+(`compiled_optimized_wellformed`): for every template the parser model accepts, the compiler model
+answers, and for every chunk of it (main, blocks, component bodies) and every payload encoding,
+`Chunk::optimize` on the compiled listing does not panic and the OPTIMISED listing has a table that
+passes the verified checker `WellFormed.verify` — hence (`C07.verify_sound`) on the abstract stack
+machine of Props/C07.lean no reachable instruction of the stored chunk pops / peeks an empty value
+stack, pops an empty capture stack, uses a loop that is not there or `AppendToList`s below a
+non-array; every jump lands inside the chunk or one past its end; and at the end the three stacks
+are empty.  Composition of bG1_parser's `parse_scoped`, p2_compiler's `nodes_verify` /
+`compile_meets_optimize_hypotheses` and bC_opt's `C09WF.optimized_chunk_sound`
+(optimize preserves the checker's acceptance).  What `Vm.checkChunk` asks on top of this — the
+per-slot facts "is a map", "has a span", "is a fine slice bound" — is what `addTemplates` validates
+at run time. -/
+theorem compiled_optimized_wellformed (maxDepth : Nat) (toks : List Tok) (t : Template)
+    (s : TParser.TState) (h : TParser.parse maxDepth toks = .ok t s) (enc : Compiler.Enc) :
+    ∃ c, Compiler.compileTemplate t = .ok c ∧ ∀ code ∈ c.chunks,
+      ∃ c', Optimize.optimize (Compiler.toEntries enc code) = .ok c' ∧
+        (∃ table', WellFormed.verify c' table' = true) ∧
+        (∀ pc st, C07.Reach c' pc st → ¬ C07.Panics c' pc st) ∧
+        (∀ pc st, C07.Reach c' pc st → pc ≤ c'.length) ∧
+        (∀ pc st, C07.Reach c' pc st → c'.length ≤ pc → st = WellFormed.St.empty) := by
+  obtain ⟨h1, h2⟩ := TParser.parse_scoped maxDepth toks t s h
+  obtain ⟨c, hc⟩ := compile_ok_of_scoped t h1 h2
+  refine ⟨c, hc, ?_⟩
+  intro code hcode
+  obtain ⟨ns, rfl, hsc⟩ := chunks_scoped_nodes t h1 h2 c hc code hcode
+  have hv := Compiler.nodes_verify enc ns hsc
+  have hT := (C07Compile.compile_meets_optimize_hypotheses t c hc enc _ hcode).1
+  obtain ⟨c', ho, hv'⟩ := C09WF.optimize_preserves_verify _ _ hT hv
+  exact ⟨c', ho, ⟨_, hv'⟩, C07.verify_sound _ _ hv'⟩
+
+/-- **… and it is about the chunks the composed model EXECUTES** (`stored_chunks_wellformed`).
+`storeChunk` runs the optimiser model on an encoding of its own (positions as payloads); the pass
+commutes with any renaming of the payloads it does not look at (`optimize_rename`) and the typed
+chunk that comes back prints, in the wire form of the dump hooks, as exactly
+`optimize (toEntries enc code)` (`storeChunk_wire`).  So for every template the parser model
+accepts and every chunk of it, the chunk stored in the environment — the one `Vm.render` runs —
+has, in wire form, a table accepted by the verified checker `WellFormed.verify`, with the three
+conclusions of `C07.verify_sound`, for ALL programs.  P3 is thereby proved up to the difference
+between the two checkers: `Vm.checkChunk` additionally tracks "is a map / has a span / is a fine
+slice bound" per stack slot and infers its own table. -/
+theorem stored_chunks_wellformed (maxDepth : Nat) (toks : List Tok) (t : Template)
+    (s : TParser.TState) (h : TParser.parse maxDepth toks = .ok t s) (enc : Compiler.Enc)
+    (name : String) :
+    ∃ c, Compiler.compileTemplate t = .ok c ∧ ∀ code ∈ c.chunks,
+      ∃ ch, storeChunk name code = .ok ch ∧
+        Optimize.optimize (Compiler.toEntries enc code) = .ok (wireChunk enc ch.code) ∧
+        (∃ table, WellFormed.verify (wireChunk enc ch.code) table = true) ∧
+        (∀ pc st, C07.Reach (wireChunk enc ch.code) pc st → ¬ C07.Panics (wireChunk enc ch.code) pc st) ∧
+        (∀ pc st, C07.Reach (wireChunk enc ch.code) pc st → pc ≤ (wireChunk enc ch.code).length) ∧
+        (∀ pc st, C07.Reach (wireChunk enc ch.code) pc st → (wireChunk enc ch.code).length ≤ pc →
+          st = WellFormed.St.empty) := by
+  obtain ⟨c, hc, hall⟩ := compiled_optimized_wellformed maxDepth toks t s h enc
+  refine ⟨c, hc, ?_⟩
+  intro code hcode
+  obtain ⟨c', ho, hv, h1, h2, h3⟩ := hall code hcode
+  obtain ⟨ch, hch⟩ := compiled_optimized_stored_partial t name c hc code hcode
+  have hw := storeChunk_wire enc name code ch hch
+  rw [hw] at ho
+  simp only [Optimize.Outcome.ok.injEq] at ho
+  subst ho
+  exact ⟨ch, hch, hw, hv, h1, h2, h3⟩
 
 /-! ## P4 — registering never panics -/
 
@@ -187,6 +268,70 @@ theorem engine_never_panics (cfg : Config) (hd : cfg.delims.accepted = true)
     exact Or.inl ⟨_, rfl, render_never_panics cfg hb sources env h fuel name none ctx []⟩
   · rw [h]; exact Or.inr ⟨e, rfl, hbn⟩
 
+/-- **`engine_never_panics_concrete`: no hypothesis on the built-ins that are modelled in Lean.**
+With the built-in instance the driver runs (`BuiltinsM.model`, Model/PipelineBuiltins.lean: the
+filters and tests of C17's `filterTable` / `testTable`, the functions `range` / `throw`, and the
+collection filters `length reverse first last nth join keys values pairs split`, `safe`, `str`
+written out in the dispatch), for EVERY float printer and EVERY float arithmetic (the two
+parameters that remain: `{:?}` of an f64 and the IEEE operations, total functions), every
+configuration with validated delimiters, every batch of valid UTF-8 sources, every template name,
+context and fuel: source text in, outcome out, never a panic.  `C17.builtins_never_panic`,
+`range_never_panics`, `throw_contract` discharge `BuiltinsNoPanic`.  What stays outside the model
+answers `unmodelled` (a non-panic outcome of the MODEL, about which the theorem says nothing for
+the engine): `sort`, `unique`, `group_by`, `upper` / `lower` / `capitalize` / `title` on non-ASCII
+text, `float`, `int` of a text with a `.`, every built-in of C17's tables whose body is
+`afterKw … unmodelled`, the functions `now` / `get_random` / `get_env` if registered, and custom
+filters of the embedding application. -/
+theorem engine_never_panics_concrete (d : Delims) (hd : d.accepted = true)
+    (prefixes suffixes : List String) (reg : Reg.Registered) (fmt : F64 → List Char) (F : FloatOps)
+    (sources : List (String × Bytes)) (hv : ∀ p ∈ sources, valid p.2 = true)
+    (fuel : Fuel) (name : String) (ctx : Ctx) :
+    let cfg : Config := { delims := d, prefixes := prefixes, suffixes := suffixes, reg := reg,
+                          builtins := BuiltinsM.model fmt F }
+    (∃ o, renderSources cfg sources fuel name ctx = .ok o ∧ ∀ site, o ≠ .panic site) ∨
+    ∃ e, renderSources cfg sources fuel name ctx = .error e ∧ e.benign :=
+  engine_never_panics _ hd (BuiltinsM.builtinsNoPanic_model fmt F) sources hv fuel name ctx
+
+/-! ### the same WITHOUT the model's run of the checker (`addTemplatesT`, `renderSourcesT`) -/
+
+/-- **`render_never_panics_T`**: for every environment `addTemplatesT` returns — the composed
+pipeline with NO checker run — `render` / `render_block` never panic, for every name, block,
+context and fuel.  `EnvOKT` (p2_vm: every chunk has SOME `Vm.verify` certificate, belongs to a
+registered template, names only registered built-ins and components) holds BY THEOREM:
+`parse_scoped` (bG1_parser) → `CompileVVerify` (p2_compiler: the typed form of every scoped
+compiled node list has a `Vm.verify` table) → `storeChunk_vverify` (bC_opt: optimize preserves
+the checker's acceptance, instantiated with the positional decoder) → `buildEnv_prov` /
+`prov_names` (every chunk the registry's derived data puts into the environment is the stored
+form of a scoped node list of a REGISTERED template whose call tables an accepting
+`finalize_templates` checked against the registries and the component table:
+`C07Compile.refs_complete`, `Reg.derive_refs_valid`).  Then `C07Vm.vm_render_no_panic_T`. -/
+theorem render_never_panics_T (hcv : CompileVVerify) (cfg : Config)
+    (hb : BuiltinsNoPanic cfg.builtins) (sources : List (String × Bytes)) (env : Env)
+    (h : addTemplatesT cfg sources = .ok env) (fuel : Fuel) (name : String)
+    (block : Option String) (ctx globalCtx : Ctx) :
+    ∀ site, Vm.render fuel env name block ctx globalCtx ≠ .panic site :=
+  C07Vm.vm_render_no_panic_T env (addTemplatesT_envOKT hcv cfg hb sources env h) fuel name block
+    ctx globalCtx
+
+/-- **`engine_never_panics_T`** (given the compiler bridge `CompileVVerify`): source text in,
+outcome out, with NO run of a checker anywhere in the model: for every configuration with validated
+delimiters, every batch of valid UTF-8 sources, every template name, context and fuel,
+`renderSourcesT` answers a non-panic outcome of the VM, `Err(SyntaxError)`, or an error VALUE of
+`finalize_templates` — never `panic`, never `outOfFuel` at add time, never `internal`, and
+`unchecked` does not exist in this pipeline.  Hypothesis left: the built-in parameters do not
+panic (discharged for the Lean-side instance in `engine_never_panics_T_concrete`). -/
+theorem engine_never_panics_T (hcv : CompileVVerify) (cfg : Config)
+    (hd : cfg.delims.accepted = true) (hb : BuiltinsNoPanic cfg.builtins)
+    (sources : List (String × Bytes)) (hv : ∀ p ∈ sources, valid p.2 = true)
+    (fuel : Fuel) (name : String) (ctx : Ctx) :
+    (∃ o, renderSourcesT cfg sources fuel name ctx = .ok o ∧ ∀ site, o ≠ .panic site) ∨
+    ∃ e, renderSourcesT cfg sources fuel name ctx = .error e ∧ e.value := by
+  unfold renderSourcesT
+  rcases addTemplatesT_total cfg hd sources hv with ⟨env, h⟩ | ⟨e, h, hval⟩
+  · rw [h]
+    exact Or.inl ⟨_, rfl, render_never_panics_T hcv cfg hb sources env h fuel name none ctx []⟩
+  · rw [h]; exact Or.inr ⟨e, rfl, hval⟩
+
 /-- a nested `interpret` on an environment `addTemplates` returned leaves the caller's stacks as it
 found them (`C07Vm.vm_stacks_restored` transported) -/
 theorem render_stacks_restored (cfg : Config) (hb : BuiltinsNoPanic cfg.builtins)
@@ -196,6 +341,26 @@ theorem render_stacks_restored (cfg : Config) (hb : BuiltinsNoPanic cfg.builtins
     st2.stack = st.stack ∧ st2.captures.length = st.captures.length :=
   let r := C07Vm.vm_stacks_restored env (addTemplates_envOK cfg hb sources env h) fuel vm c st st2 hg hrun
   ⟨r.1, r.2.2.1⟩
+
+/-- **References are checked at add time** (the second clause of C07, for the whole engine).  In
+every environment `addTemplates` returns, every chunk `interpret` can be entered with — every main
+chunk, every chunk of every block lineage, every component of the instance-wide table — belongs to
+a registered template (`report_target` finds it), and every filter, test, function (other than
+`super`) and component it names is registered: the indexings `tera.filters[name]`,
+`tera.tests[name]`, `tera.functions[name]`, `template.components[name]` of the interpreter cannot
+fail at render time.  (Established by the last stage of `addTemplates`, which checks every chunk;
+that an unknown name is REFUSED with an error value rather than accepted is
+`C07Refs.rejected_iff_unknown_reference` of the registry stage, composed in P4.) -/
+theorem add_references_checked (cfg : Config) (sources : List (String × Bytes)) (env : Env)
+    (h : addTemplates cfg sources = .ok env) :
+    ∀ p ∈ allChunks env,
+      (env.template p.2.name).isSome = true ∧ ∀ e ∈ p.2.code, Vm.namesOk env e.1 = true := by
+  obtain ⟨hnone, _⟩ := addTemplates_ok_inv cfg sources env h
+  intro p hp
+  have hc := all_checked hnone p hp
+  unfold Vm.checkChunk at hc
+  simp only [Bool.and_eq_true, List.all_eq_true] at hc
+  exact ⟨hc.1.1, hc.1.2⟩
 
 /-! ## P6 — the output is valid UTF-8 -/
 
